@@ -199,6 +199,9 @@ class VProcess:
     def is_alive(self) -> bool:
         if self.child is None:
             return False
+        if self.child.state == 'terminated' and self.world.term_slow:
+            self.world.signal_point('Process.is_alive')
+            return True           # SIGTERM was sent, the worker has not died yet (it handles the signal, or is slow)
         r = self.world.observe_liveness(self.child)
         self.world.signal_point('Process.is_alive')
         return r
@@ -220,6 +223,10 @@ class VProcess:
             self.world.terminate_child(self.child, 'kill')
 
     def join(self, timeout=None):
+        if self.child is not None and self.child.state == 'terminated' and self.world.term_slow and timeout is None:
+            self.world.record('join-blocks-forever', self.child.idx, self.child.task_key)
+            self.world.record('livelock')
+            raise Livelock()
         if self.child is not None and self.child.state == 'running':
             self.world.commit_all(self.child)
             if self.child.state == 'running' and self.child.linger and timeout is None:
@@ -709,6 +716,7 @@ class VWorld:
         self.draining: set = set()
         self.burst_reduced = False
         self.infinite_wait = False
+        self.term_slow = False            # terminated workers do not die promptly
         self.state_when_left: dict = {}
         self.signal_hook = None           # C14 signal-faithful slice: called at instants inside (virtual) OS calls of the parent
         self.linger_labels: frozenset = frozenset()
